@@ -24,10 +24,10 @@ def leaf_types(s, path="", out=None):
     return out
 
 
-def make_case(cid, s, flags=(), comp=None, mode="list"):
+def make_case(cid, s, flags=(), comp=None, mode="list", rerun=False):
     oracle = ('package cs\n\nimport "verifcases/vo"\n\nfunc VerifObserve(emit func(string, string)) {\n'
               '\tvo.ObserveCtor(emit, New%s)\n}\n' % newgen.instantiate(s))
-    cdecls, cnames = comp or ([], [])
+    cdecls, cnames = (comp or ([], [], []))[:2]
     # multi-type run: the companion types come first; what they carry must not reach T
     args = ["new"] + list(flags) + ["-type=" + ",".join(cnames + [s["name"]])]
     if mode == "file":
@@ -42,7 +42,7 @@ def make_case(cid, s, flags=(), comp=None, mode="list"):
         # -type=* is the go:generate mode: the all-in-one file is named after the file that carries the directive
         files["t.go"] = files["t.go"].replace("package cs\n", "package cs\n\n//go:generate shoot " + " ".join(args) + "\n", 1)
     return {"id": cid, "spec": s, "files": files,
-            "runs": [run], "oracle": {".": oracle},
+            "runs": [run, dict(run)] if rerun else [run], "oracle": {".": oracle},
             "sexp": newgen.ctor_sexp(cid, s), "cmd": "shoot " + " ".join(args),
             "types": leaf_types(s)}
 
@@ -88,8 +88,11 @@ def gen_cases(ctx):
                                            [(["V"], "any"), (["S"], "fmt.Stringer")]])
         comp = newgen.companion(ctx.rng, s, "n%d" % i) if ctx.rng.random() < 0.3 else None
         mode = ctx.rng.choice(["list"] * 7 + ["file", "file", "star"])
-        cases.append(make_case("n%d" % i, s, comp=comp, mode=mode))
+        # 12%: the same command a second time, over the package that now holds its own output
+        rerun = ctx.rng.random() < 0.12
+        cases.append(make_case("n%d" % i, s, comp=comp, mode=mode, rerun=rerun))
         cases[-1]["mode"] = mode
+        cases[-1]["rerun"] = rerun
     # the other selection modes generate EVERY struct of the file: use them only where the model puts each embedded
     # declaration in WF on its own (otherwise the run may rightly fail on account of another type)
     probes = []
@@ -103,7 +106,7 @@ def gen_cases(ctx):
         bad = set(c["id"] for pid, c, d in probes if (pm.get(pid) or {}).get("region") != "WF")
         for k, c in enumerate(cases):
             if c["id"] in bad:
-                cases[k] = make_case(c["id"], c["spec"], comp=None, mode="list")
+                cases[k] = make_case(c["id"], c["spec"], comp=None, mode="list", rerun=c.get("rerun", False))
                 cases[k]["mode"] = "list"
     return cases
 
@@ -117,7 +120,7 @@ def run_cases(ctx, cases):
     for c in cases:
         r = out[c["id"]]
         im = dict(r["obs"])
-        im["exit"] = str(r["runs"][0]["rc"])
+        im["exit"] = str(max(abs(x["rc"]) for x in r["runs"]))
         im["compile"] = r["compile"] if r["compile"] == "ok" else "error"
         im.pop("ptypes", None)
         src = "\n".join(r["written"].values())
@@ -154,6 +157,7 @@ def run(ctx, obl):
         for k, v in newgen.count_features(c["spec"]).items():
             res.hist("features", k)
         res.hist("selection_mode", c.get("mode", "list"))
+        res.hist("rerun", str(bool(c.get("rerun"))))
 
     def nontrivial(c, m, im):
         return int(m["spec"].get("nparams", "0")) >= 1 and any(mm["k"] == "e" or mm.get("new") or mm.get("def") for mm in c["spec"]["members"])
